@@ -163,7 +163,7 @@ func mapTok(r *lib.Rng, n int) (string, []string) {
 
 func detRun(o *lib.Opts) {
 	r := lib.NewRng(o.Seed)
-	steps, nslots := 2500, 6
+	steps, nslots := 6000, 6
 	if o.Tier == "thorough" {
 		steps, nslots = 60000, 12
 	}
@@ -264,8 +264,8 @@ func main() {
 			}
 			stressLine(64, 300, o.Seed*10+5, true)
 		} else {
-			stressLine(8, 500, o.Seed, false)
-			stressLine(32, 120, o.Seed+1000, true)
+			stressLine(8, 800, o.Seed, false)
+			stressLine(32, 200, o.Seed+1000, true)
 		}
 	}
 	if *mode == "race" || (*mode == "all" && o.Tier == "thorough") {
